@@ -11,6 +11,8 @@
 (*   Committed  NodeDatabase.Commit(root) returned nil                     *)
 (*   Reopen     what the real code answered when every state root so far   *)
 (*              was opened from a store holding exactly the writes so far  *)
+(*   FailedWrite a physical write returned an (injected) error: nothing of *)
+(*              it reached the store, the process went on                  *)
 (*   Aborted    the real code failed to build / commit the next block on   *)
 (*              its own committed state (conformance: the writes made so   *)
 (*              far carry the verdict)                                     *)
@@ -66,7 +68,7 @@ JudgeReopen(e) ==
       "Reopen.agreesWithModel")
 
 TraceInit == /\ children = <<>> /\ mem = {} /\ disk = {} /\ batch = {} /\ stack = <<>>
-             /\ durable = {} /\ pc = "idle" /\ commits = 0 /\ target = 0
+             /\ durable = {} /\ pc = "idle" /\ commits = 0 /\ target = 0 /\ flushed = {}
              /\ l = 1 /\ bad = <<>>
 
 TraceNext ==
@@ -84,13 +86,14 @@ TraceNext ==
                   [] e.event = "Committed" -> JudgeCommitted(e)
                   [] e.event = "Reopen" -> JudgeReopen(e)
                   [] e.event = "Reset" -> <<>>
+                  [] e.event = "FailedWrite" -> <<>>     \* nothing reached the store; the process goes on
                   [] e.event = "Aborted" -> <<"Run.realCodeCouldNotContinue">>
                   [] OTHER -> <<"unknown-event">>
      IN  /\ children' = ch2
          /\ disk' = d2
          /\ durable' = IF e.event = "Reset" THEN {} ELSE IF e.event = "Committed" THEN durable \cup {e.root} ELSE durable
          /\ commits' = IF e.event = "Committed" THEN commits + 1 ELSE commits
-         /\ UNCHANGED <<mem, batch, stack, pc, target>>
+         /\ UNCHANGED <<mem, batch, stack, pc, target, flushed>>
          /\ bad' = bad \o Fresh(e.event, j)
 
 TraceSpec == TraceInit /\ [][TraceNext]_tvars
